@@ -103,8 +103,8 @@ def match_known(known, prop, failure):
         if k["property"] != prop:
             continue
         m = k.get("match", {})
-        if all(str(failure.get(key, "")) == str(val) or
-               (key.endswith("_contains") and str(val) in str(failure.get(key[:-9], "")))
+        if all((key.endswith("_contains") and str(val) in str(failure.get(key[:-9], ""))) or
+               (not key.endswith("_contains") and str(failure.get(key, "")) == str(val))
                for key, val in m.items()):
             return k
     return None
